@@ -9,11 +9,30 @@
     base sub-object's accessor at the base field's offset (RustExec).  When no first base supplies a
     vftable and the type declares one, the single pointer-sized [vftable] field is region 0 at
     offset 0 and every declared field comes after it ([resolve_regions_offsets], start = pointer
-    size). *)
+    size).
+
+    ON THE EMITTED TEXT (EmitInherit.v), accepted collision-free build, at the end of this file:
+    - [C06_emitted_shared_pointer]: the emitted struct of a type whose first base carries a vftable
+      has no GENERATED pointer field (every field is a declared one or [_field_<hex>] padding; "no
+      field named vftable" needs that the description declares none, which nothing checks), the
+      base field carries [crate::<base path>], and the [vftable()] accessor read back from the
+      inherent impl goes through that base field and casts to the derived table type (own block)
+      or the base's table type (no block);
+    - [C06_emitted_own_pointer]: without such a base, the first emitted field is the private,
+      undocumented [vftable: *const <T>Vftable] at offset 0 of the Reference layout, it is the
+      only generated pointer, declared fields start at the pointer size, the accessor reads it;
+    - [C06_emitted_vftable_prefix] / [_any_depth]: the emitted [<Derived>Vftable] struct starts with
+      the fields of the emitted base table (possibly in another file; through any number of
+      first-base levels): same name, visibility, docs, ABI, return and parameter tokens except the
+      receiver's pointee, and slot k of both sits at k * ptr -- the base's struct is a layout
+      prefix; [C06_derived_table_starts_with_the_base_table]: [prefix_equal] means the derived
+      record list literally begins with the base's. *)
 From Coq Require Import List NArith ZArith Bool String Lia.
 From PyxisModel Require Import Base Grammar SemTypes Registry Sem SemLemmas PlacementLemmas
      InheritLemmas RustExec ExecLemmas PerAttempt WholeBuild WholeBuildMore.
 Import ListNotations.
+
+From PyxisModel Require EmitReaders EmitShape EmitFnReaders EmitFnShape EmitVftLayout EmitInherit.
 
 Theorem C06_shares_base_pointer : forall st owner v fb vfs st' vt vr base_name bvt,
   owner <> [] ->
@@ -141,3 +160,223 @@ Theorem C06_whole_build_own_pointer : forall order ptr mods st0 st p it0 gd td0 
 Proof. exact WholeBuildMore.C06_whole_build_own_pointer. Qed.
 Print Assumptions C06_whole_build_own_pointer.
 
+Theorem C06_emitted_shared_pointer :
+  forall (order : schedule) (ptr : N) (mods : list (path * gmodule)) (st0 st : sstate)
+      (files : list (string * Sexp.sexp)) (p : path) (it0 : item) (gd : gitemdef) 
+      (td0 : gtypedef) (it : item) (r : resolved) (td : type_def) (fb : region) 
+      (bp : path) (itb : item) (rsb : resolved) (tdb : type_def) (bvt : tvftable),
+    input_state ptr mods = Ok st0 ->
+    NoDup (map fst mods) ->
+    collision_free (st_reg st0) ->
+    EmitFinal.keeps_work order ->
+    pyxis_resolve order ptr mods = BOk st ->
+    Emit.write_all st = Ok files ->
+    reg_get (st_reg st0) p = Some it0 ->
+    it_state it0 = Unresolved gd ->
+    gi_inner gd = GIType td0 ->
+    path_parent p <> Some [] ->
+    reg_get (st_reg st) p = Some it ->
+    it_state it = Resolved r ->
+    rs_inner r = IType td ->
+    find r_is_base (td_regions td) = Some fb ->
+    r_type fb = TRaw bp ->
+    reg_get (st_reg st) bp = Some itb ->
+    item_resolved itb = Some rsb ->
+    rs_inner rsb = IType tdb ->
+    td_vftable tdb = Some bvt ->
+    let R := st_reg st in
+    exists
+      (parent : path) (name base_name : string) (vt : tvftable) (vp : path) 
+    (f : Sexp.sexp) (items : list Sexp.sexp) (s : Sexp.sexp) (efs : list EmitReaders.efield) 
+    (k : nat) (ef : EmitReaders.efield) (im : Sexp.sexp) (fns : list Sexp.sexp) 
+    (a : Sexp.sexp) (others : list Sexp.sexp) (R_mid : registry) (module : smodule) 
+    (n : nat) (pending : list (option N * region)) (vfs : option (list sfunction)),
+      path_parent p = Some parent /\
+      path_last p = Some name /\
+      vftable_path p = Some vp /\
+      r_name fb = Some base_name /\
+      td_vftable td = Some vt /\
+      vt_base_field vt = Some base_name /\
+      vt_type vt = (if EmitInherit.declares_vftable td0 then TConstPtr (TRaw vp) else vt_type bvt) /\
+      In (Emit.out_path parent, f) files /\
+      EmitReaders.file_items f = Some items /\
+      EmitReaders.find_struct name items = Some s /\
+      EmitShape.struct_shape name (rs_align r) (gi_vis gd) td s /\
+      EmitReaders.struct_fields s = Some efs /\
+      Forall2 EmitShape.field_of_region (td_regions td) efs /\
+      Forall
+        (fun e : EmitReaders.efield =>
+         EmitInherit.ef_unnamed_gen e \/ EmitInherit.ef_of_statement (gt_stmts td0) e) efs /\
+      (EmitInherit.no_field_named "vftable" (gt_stmts td0) ->
+       Forall (fun e : EmitReaders.efield => EmitReaders.ef_name e <> "vftable"%string) efs) /\
+      nth_error (td_regions td) k = Some fb /\
+      nth_error efs k = Some ef /\
+      (forall (j : nat) (y : region),
+       j < k -> nth_error (td_regions td) j = Some y -> r_is_base y = false) /\
+      (hd_error (td_regions td) = Some fb -> k = 0) /\
+      EmitReaders.ef_name ef = base_name /\
+      EmitReaders.ef_ty ef = Emit.type_tokens (TRaw bp) /\
+      EmitReaders.ef_vis ef = r_vis fb /\
+      EmitLayout.emitted_struct_layout (EmitInherit.emitted_field_sas R td) s =
+      Some (EmitInherit.emitted_offsets R td efs, rs_size r, rs_align r) /\
+      (exists off : N,
+         nth_error (EmitInherit.emitted_offsets R td efs) k = Some (base_name, off) /\
+         (k = 0 -> off = 0%N)) /\
+      ext (st_reg st0) R_mid R /\
+      foldM (process_statement R_mid (module_scope module)) (gt_stmts td0) (0, ([], None)) =
+      Ok (n, (pending, vfs)) /\
+      Forall
+        (fun x : N * region =>
+         forall nm : string,
+         r_name (snd x) = Some nm -> In (nm, fst x) (EmitInherit.emitted_offsets R td efs))
+        (declared_offsets R 0 pending) /\
+      In im items /\
+      EmitFnReaders.inherent_impl im = Some (name, fns) /\
+      fns = a :: others /\
+      EmitFnReaders.find_fn "vftable" fns = Some a /\
+      EmitFnShape.accessor_shape vt a /\
+      EmitFnReaders.fn_ret a = Some (Emit.type_tokens (vt_type vt)) /\
+      EmitFnShape.fn_accessor a = Some (Some base_name, Emit.type_tokens (vt_type vt)).
+Proof. exact EmitInherit.emitted_shared_pointer_whole_build. Qed.
+Print Assumptions C06_emitted_shared_pointer.
+
+Theorem C06_emitted_own_pointer :
+  forall (order : schedule) (ptr : N) (mods : list (path * gmodule)) (st0 st : sstate)
+      (files : list (string * Sexp.sexp)) (p : path) (it0 : item) (gd : gitemdef) 
+      (td0 : gtypedef) (it : item) (r : resolved) (td : type_def),
+    input_state ptr mods = Ok st0 ->
+    NoDup (map fst mods) ->
+    collision_free (st_reg st0) ->
+    EmitFinal.keeps_work order ->
+    pyxis_resolve order ptr mods = BOk st ->
+    Emit.write_all st = Ok files ->
+    reg_get (st_reg st0) p = Some it0 ->
+    it_state it0 = Unresolved gd ->
+    gi_inner gd = GIType td0 ->
+    path_parent p <> Some [] ->
+    reg_get (st_reg st) p = Some it ->
+    it_state it = Resolved r ->
+    rs_inner r = IType td ->
+    EmitInherit.declares_vftable td0 = true ->
+    (forall (fb : region) (bp : path) (itb : item) (rsb : resolved) (tdb : type_def),
+     find r_is_base (td_regions td) = Some fb ->
+     r_type fb = TRaw bp ->
+     reg_get (st_reg st) bp = Some itb ->
+     item_resolved itb = Some rsb -> rs_inner rsb = IType tdb -> td_vftable tdb = None) ->
+    let R := st_reg st in
+    exists
+      (parent : path) (name : string) (vp : path) (fs : list sfunction) (vt : tvftable) 
+    (f : Sexp.sexp) (items : list Sexp.sexp) (s : Sexp.sexp) (efs : list EmitReaders.efield) 
+    (ef0 : EmitReaders.efield) (efs' : list EmitReaders.efield) (im : Sexp.sexp) 
+    (fns : list Sexp.sexp) (a : Sexp.sexp) (others : list Sexp.sexp) (R_mid : registry) 
+    (module : smodule) (n : nat) (pending : list (option N * region)),
+      path_parent p = Some parent /\
+      path_last p = Some name /\
+      vftable_path p = Some vp /\
+      td_vftable td = Some vt /\
+      vt = {| vt_functions := fs; vt_base_field := None; vt_type := TConstPtr (TRaw vp) |} /\
+      In (Emit.out_path parent, f) files /\
+      EmitReaders.file_items f = Some items /\
+      EmitReaders.find_struct name items = Some s /\
+      EmitShape.struct_shape name (rs_align r) (gi_vis gd) td s /\
+      EmitReaders.struct_fields s = Some efs /\
+      Forall2 EmitShape.field_of_region (td_regions td) efs /\
+      efs = ef0 :: efs' /\
+      EmitInherit.ef_own_pointer (TConstPtr (TRaw vp)) ef0 /\
+      Forall
+        (fun e : EmitReaders.efield =>
+         EmitInherit.ef_unnamed_gen e \/ EmitInherit.ef_of_statement (gt_stmts td0) e) efs' /\
+      (EmitInherit.no_field_named "vftable" (gt_stmts td0) ->
+       Forall (fun e : EmitReaders.efield => EmitReaders.ef_name e <> "vftable"%string) efs') /\
+      EmitLayout.emitted_struct_layout (EmitInherit.emitted_field_sas R td) s =
+      Some (EmitInherit.emitted_offsets R td efs, rs_size r, rs_align r) /\
+      hd_error (EmitInherit.emitted_offsets R td efs) = Some ("vftable"%string, 0%N) /\
+      hd_error (EmitInherit.emitted_field_sas R td) = Some (ptr, ptr) /\
+      (forall (nm : string) (off : N),
+       nth_error (EmitInherit.emitted_offsets R td efs) 1 = Some (nm, off) -> off = ptr) /\
+      ext (st_reg st0) R_mid R /\
+      foldM (process_statement R_mid (module_scope module)) (gt_stmts td0) (0, ([], None)) =
+      Ok (n, (pending, Some fs)) /\
+      Forall
+        (fun x : N * region =>
+         forall nm : string,
+         r_name (snd x) = Some nm -> In (nm, fst x) (EmitInherit.emitted_offsets R td efs))
+        (declared_offsets R ptr pending) /\
+      In im items /\
+      EmitFnReaders.inherent_impl im = Some (name, fns) /\
+      fns = a :: others /\
+      EmitFnReaders.find_fn "vftable" fns = Some a /\
+      EmitFnShape.accessor_shape vt a /\
+      EmitFnReaders.fn_ret a = Some (Emit.type_tokens (TConstPtr (TRaw vp))) /\
+      EmitFnShape.fn_accessor a = Some (None, Emit.type_tokens (TConstPtr (TRaw vp))).
+Proof. exact EmitInherit.emitted_own_pointer_whole_build. Qed.
+Print Assumptions C06_emitted_own_pointer.
+
+Theorem C06_emitted_vftable_prefix :
+  forall (order : schedule) (ptr : N) (mods : list (path * gmodule)) (st0 st : sstate)
+      (files : list (string * Sexp.sexp)) (p : path) (it0 : item) (gd : gitemdef) 
+      (td0 : gtypedef) (it : item) (r : resolved) (td : type_def) (fb : region) 
+      (bp : path) (itb0 : item) (gdb : gitemdef) (tdb0 : gtypedef) (itb : item) 
+      (rsb : resolved) (tdb : type_def) (bvt : tvftable),
+    input_state ptr mods = Ok st0 ->
+    NoDup (map fst mods) ->
+    collision_free (st_reg st0) ->
+    pyxis_resolve order ptr mods = BOk st ->
+    Emit.write_all st = Ok files ->
+    reg_get (st_reg st0) p = Some it0 ->
+    it_state it0 = Unresolved gd ->
+    gi_inner gd = GIType td0 ->
+    path_parent p <> Some [] ->
+    EmitInherit.declares_vftable td0 = true ->
+    reg_get (st_reg st) p = Some it ->
+    it_state it = Resolved r ->
+    rs_inner r = IType td ->
+    find r_is_base (td_regions td) = Some fb ->
+    r_type fb = TRaw bp ->
+    reg_get (st_reg st0) bp = Some itb0 ->
+    it_state itb0 = Unresolved gdb ->
+    gi_inner gdb = GIType tdb0 ->
+    path_parent bp <> Some [] ->
+    EmitInherit.declares_vftable tdb0 = true ->
+    reg_get (st_reg st) bp = Some itb ->
+    item_resolved itb = Some rsb ->
+    rs_inner rsb = IType tdb ->
+    td_vftable tdb = Some bvt -> EmitInherit.vftable_prefix_emitted ptr st files p td bvt bp.
+Proof. exact EmitInherit.emitted_vftable_prefix_whole_build. Qed.
+Print Assumptions C06_emitted_vftable_prefix.
+
+Theorem C06_emitted_vftable_prefix_any_depth :
+  forall (order : schedule) (ptr : N) (mods : list (path * gmodule)) (st0 st : sstate)
+      (files : list (string * Sexp.sexp)) (p : path) (it0 : item) (gd : gitemdef) 
+      (td0 : gtypedef) (it : item) (r : resolved) (td : type_def) (fb : region) 
+      (bp : path) (itb : item) (rsb : resolved) (tdb : type_def) (bvt : tvftable),
+    input_state ptr mods = Ok st0 ->
+    NoDup (map fst mods) ->
+    collision_free (st_reg st0) ->
+    pyxis_resolve order ptr mods = BOk st ->
+    Emit.write_all st = Ok files ->
+    EmitInherit.no_root_decl st0 ->
+    reg_get (st_reg st0) p = Some it0 ->
+    it_state it0 = Unresolved gd ->
+    gi_inner gd = GIType td0 ->
+    EmitInherit.declares_vftable td0 = true ->
+    reg_get (st_reg st) p = Some it ->
+    it_state it = Resolved r ->
+    rs_inner r = IType td ->
+    find r_is_base (td_regions td) = Some fb ->
+    r_type fb = TRaw bp ->
+    reg_get (st_reg st) bp = Some itb ->
+    item_resolved itb = Some rsb ->
+    rs_inner rsb = IType tdb ->
+    td_vftable tdb = Some bvt ->
+    exists q : path,
+      EmitInherit.vft_origin st0 st bvt q /\ EmitInherit.vftable_prefix_emitted ptr st files p td bvt q.
+Proof. exact EmitInherit.emitted_vftable_prefix_whole_build_origin. Qed.
+Print Assumptions C06_emitted_vftable_prefix_any_depth.
+
+Theorem C06_derived_table_starts_with_the_base_table :
+  forall base derived : list sfunction,
+    prefix_equal base derived = true ->
+    Datatypes.length base <= Datatypes.length derived -> firstn (Datatypes.length base) derived = base.
+Proof. exact EmitInherit.prefix_equal_firstn. Qed.
+Print Assumptions C06_derived_table_starts_with_the_base_table.
